@@ -51,6 +51,17 @@ def cases(tier):
             for cls in ("ConvexPolyhedron", "Polyhedron", "ConvexSpheropolyhedron"):
                 out.append({"cls": cls, "pts": S, "pl": pq[k % len(pq)]})
                 k += 1
+            out.append({"cls": "ConvexSpheropolyhedron", "pts": S, "pl": pq[k % len(pq)], "r0": True})  # rounding radius exactly 0
+    # tiny shapes a few sizes away from the origin (an absolute "already centred" test would misfire)
+    tiny = {"rot": "q1234", "scale": "s1", "shift": "t3-25", "tiny": 1e-9}
+    for i, S in enumerate(A.s3(4)):
+        if i % (60 if q else 12) == 0:
+            for cls in ("ConvexPolyhedron", "Polyhedron", "ConvexSpheropolyhedron"):
+                out.append({"cls": cls, "pts": S, "pl": tiny})
+    for i, c in enumerate(A.cp2(5, 4)):
+        if i % (150 if q else 30) == 0:
+            for cls in ("Polygon", "ConvexPolygon"):
+                out.append({"cls": cls, "poly": [list(p) for p in c], "pl": tiny})
     for i in range(len(A.vox((2, 2, 2)))):
         if i % (6 if q else 1) == 0:
             out.append({"cls": "Polyhedron", "vox": i, "pl": pq[k % len(pq)]})
@@ -69,6 +80,7 @@ def cases(tier):
             out.append({"cls": cls, "poly": [list(p) for p in c], "pl": PL3[1 + k % 7]})
             out.append({"cls": cls, "poly": [list(p) for p in c][::-1], "pl2": PL2[1 + k % 5]})
             k += 1
+        out.append({"cls": "ConvexSpheropolygon", "poly": [list(p) for p in c], "pl": PL3[1 + k % 7], "r0": True})
     ax = A.AXES
     for ia, a in enumerate(ax):
         out.append({"cls": "Circle", "axes": [a], "centre": 1 + ia % 3})
@@ -85,6 +97,16 @@ def cases(tier):
 
 
 def build(case):
+    x = _build(case)
+    return x
+
+
+def _tiny(case, F):
+    f = case.get("pl", {}).get("tiny") if isinstance(case.get("pl"), dict) else None
+    return F * f if f else F
+
+
+def _build(case):
     from coxeter import shapes as S
 
     cls = case["cls"]
@@ -94,22 +116,25 @@ def build(case):
     if "poly" in case:
         poly = [tuple(p) for p in case["poly"]]
         F, s, R, t = place(case, poly)
+        F = _tiny(case, F)
+        if case.get("pl", {}).get("tiny") if "pl" in case else False:
+            s = s * case["pl"]["tiny"]
         if cls == "Polygon":
             return S.Polygon(F)
         if cls == "ConvexPolygon":
             return S.ConvexPolygon(F)
-        return S.ConvexSpheropolygon(F, 0.3 * s)
+        return S.ConvexSpheropolygon(F, 0.0 if case.get("r0") else 0.3 * s)
     if "vox" in case:
         v = A.vox((2, 2, 2))[case["vox"]]
         F = A.apply_placement(case["pl"], np.array(v["verts"], float))
         return S.Polyhedron(F, [np.array(f, dtype=np.int32) for f in v["faces"]], faces_are_convex=True)
     P = [tuple(p) for p in case["pts"]]
-    F = A.apply_placement(case["pl"], np.array(P, float))
-    s = A.SCALES[case["pl"]["scale"]]
+    F = _tiny(case, A.apply_placement(case["pl"], np.array(P, float)))
+    s = A.SCALES[case["pl"]["scale"]] * (case["pl"].get("tiny") or 1.0)
     if cls == "ConvexPolyhedron":
         return S.ConvexPolyhedron(F)
     if cls == "ConvexSpheropolyhedron":
-        return S.ConvexSpheropolyhedron(F, 0.25 * s)
+        return S.ConvexSpheropolyhedron(F, 0.0 if case.get("r0") else 0.25 * s)
     faces = [list(ext) for _, _, _, ext in X.hull_facets(P)]
     return S.Polyhedron(F, faces, faces_are_convex=True)
 
@@ -222,7 +247,8 @@ def run_case(case):
                         continue
                     w = d1.get(k)
                     if isinstance(v, np.ndarray):
-                        if w is None or v.shape != np.shape(w) or np.max(np.abs(v - w)) > 1e-12 * (size + 1e-300):
+                        lim = 1e-12 if k == "normal" else 1e-12 * (size + 1e-300)  # the normal is dimensionless
+                        if w is None or v.shape != np.shape(w) or np.max(np.abs(v - w)) > lim:
                             msg = "%s differs" % k
                     elif isinstance(v, list):
                         if v != w:
